@@ -158,7 +158,7 @@ let run_crew k multi wko tr op ss ts sid tid aid post sst tst est =
   (* main operation: returns (t', s', w') *)
   let (t1, s1, w1) =
     match op with
-    | "none" | "selfcopya" -> (t, s, w)
+    | "none" | "copyfail" | "selfcopya" -> (t, s, w)
     | "selfmovea" -> if wrap then (t, s, w) else let (s', w') = get (cc_self_move_assign k s w) in (t, s', w')
     | "selfswap" -> if wrap then let ((a, _), w') = get (w_swap trv s s w) in (t, a, w') else (t, s, w)
     | "copyc" -> let (n, w') = get (cc_copy_ctor k s w) in (n, s, w')
@@ -175,8 +175,8 @@ let run_crew k multi wko tr op ss ts sid tid aid post sst tst est =
                  else if items_of t = [] && sid = tid then let (s', t') = cc_swap s t in (t', s', w)   (* empty target, equal managers: Swap(dst) (c7fda03) *)
                  else let ((t', s'), w') = get (cc_merge_from k t s w) in (t', s', w')    (* joined (fast path) or element-wise: items move, never copied *)
     | _ -> failwith "op" in
-  let none = (op = "none") in
-  let iscopy = String.length op >= 4 && String.sub op 0 4 = "copy" in
+  let none = (op = "none" || op = "copyfail") in
+  let iscopy = String.length op >= 4 && String.sub op 0 4 = "copy" && op <> "copyfail" in
   (* structured view: the graph of S and T before the operation comes from the (validated) structure tokens *)
   let wS = { next = z 1000000; trace = [] } in
   let crew_of c = match c with Owned (cr, _, _) -> cr | MovedFrom -> { cblocks = []; cmgr = z 0 } in
@@ -241,7 +241,7 @@ let run_crew k multi wko tr op ss ts sid tid aid post sst tst est =
       let cnt = z (Stdlib.List.length (items_of s1)) in
       let gen_ok = (match k with
           | KTree -> (match Gen_TreeSet.coq_Clear crew_null cnt storage storage with GenPrelude.Ok _ -> true | _ -> false)
-          | KHash -> (match Gen_HashSet.coq_Clear crew_null cnt cnt storage true with GenPrelude.Ok _ -> true | _ -> false)
+          | KHash -> (match Gen_HashSet.coq_Clear crew_null (z 0) cnt cnt storage true with GenPrelude.Ok _ -> true | _ -> false)
           | KMulti -> (match Gen_HashMultiMap.coq_Clear crew_null cnt with GenPrelude.Ok _ -> true | _ -> false)
           | KTable -> (match Gen_DataTable.coq_Clear crew_null with GenPrelude.Ok _ -> true | _ -> false)) in
       let hand = cc_clear k s1 w2 in
@@ -278,7 +278,7 @@ let run_crew k multi wko tr op ss ts sid tid aid post sst tst est =
       (match k with
        | KTree -> (match Gen_TreeSet.coq_Clear false cnt storage storage with
            | GenPrelude.Ok (((_, _), r'), p') -> if iz r' = 0 && iz p' = 0 then "T0:" else "T1:0.0" | _ -> "stuck")
-       | KHash -> (match Gen_HashSet.coq_Clear false cnt cnt storage true with
+       | KHash -> (match Gen_HashSet.coq_Clear false (z 0) cnt cnt storage true with
            | GenPrelude.Ok (((_, _), _), b') -> if iz b' = 0 then "H" else "H0" | _ -> "stuck")
        | KMulti -> "M0:0.0"
        | KTable -> let is = (if op = "swap" then idxT else idxS) in      (* the index DEFINITIONS stay, without entries *)
@@ -293,14 +293,14 @@ let run_inl ishash op ss ts sid tid aid post sst tst =
     { is_crew = z id; is_built = z id; is_shape = []; is_items = zl items } in
   let s = mk sid ss 1000 and t = mk tid ts 200000 in
   let self = String.length op >= 4 && String.sub op 0 4 = "self" in
-  let none = (op = "none") in
-  let iscopy = String.length op >= 4 && String.sub op 0 4 = "copy" in
+  let none = (op = "none" || op = "copyfail") in
+  let iscopy = String.length op >= 4 && String.sub op 0 4 = "copy" && op <> "copyfail" in
   let empty_tok = if ishash then "H" else "T0:" in
   let copy_tok tok items = if items = [] then empty_tok else if ishash then "H" ^ string_of_int (Stdlib.List.length items) else tok in
   let rb x = x in
   let (t1, s1, ts_str, ss_str) =
     match op with
-    | "none" | "selfcopya" | "selfmovea" | "selfswap" -> (t, s, "-", sst)
+    | "none" | "copyfail" | "selfcopya" | "selfmovea" | "selfswap" -> (t, s, "-", sst)
     | "copyc" | "copyca" -> (iset_copy_ctor rb s, s, copy_tok sst s.is_items, sst)
     | "copya" -> (iset_copy_assign rb t s, s, copy_tok sst s.is_items, sst)
     | "movec" -> let (n, s') = iset_move_ctor s in (n, s', sst, empty_tok)
@@ -332,7 +332,7 @@ let run_inl ishash op ss ts sid tid aid post sst tst =
     (if useF then tid_s f2 else "-") (if useF then show (il f2.is_items) else "[]") (if post = "clear" then empty_tok else "-")
 
 let run_arr ic isvec tr op ss ts sid tid aid post =
-  let selfnone = (op = "none" || (String.length op >= 4 && String.sub op 0 4 = "self")) in
+  let selfnone = (op = "none" || op = "copyfail" || (String.length op >= 4 && String.sub op 0 4 = "self")) in
   let w0 = { next = z 0; trace = [] } in
   let icn = nat_of_int ic in
   let mk id st base w =
@@ -347,7 +347,7 @@ let run_arr ic isvec tr op ss ts sid tid aid post =
   let self = String.length op >= 4 && String.sub op 0 4 = "self" in
   let (t1, s1, w1) =
     match op with
-    | "none" | "selfcopya" | "selfmovea" | "selfswap" -> (t, s, w)
+    | "none" | "copyfail" | "selfcopya" | "selfmovea" | "selfswap" -> (t, s, w)
     | "copyc" -> let (n, w') = arr_copy_ctor icn s w in (n, s, w')
     | "copyca" -> let (n, w') = arr_copy_ctor_mm icn s (z aid) w in (n, s, w')
     | "movec" -> let ((n, s'), w') = arr_move_ctor s w in (n, s', w')
@@ -359,8 +359,8 @@ let run_arr ic isvec tr op ss ts sid tid aid post =
     | "swap" -> if isvec then let ((t', s'), w') = get (v_swap trv t s w) in (t', s', w')
                 else let ((t', s'), w') = get (arr_swap assign t s w) in (t', s', w')
     | _ -> failwith "op" in
-  let none = (op = "none") in
-  let iscopy = String.length op >= 4 && String.sub op 0 4 = "copy" in
+  let none = (op = "none" || op = "copyfail") in
+  let iscopy = String.length op >= 4 && String.sub op 0 4 = "copy" && op <> "copyfail" in
   let line1 = Printf.sprintf "ok T=%s S=%s tc=%s sc=%s mv=%d cp=%d ts=%s ss=A"
       (if self || none then "-" else string_of_int (iz t1.amgr)) (string_of_int (iz s1.amgr))
       (if self || none then "[]" else show (il t1.aitems)) (show (il s1.aitems))
